@@ -54,6 +54,8 @@ type snapJ struct {
 	Markers []markerJ `json:"markers"`
 	Wal     []walJ    `json:"wal"`
 	Next    int       `json:"next"`
+	Pnodes  []string  `json:"pnodes"`          // nodes the resource plugin has a record of
+	Pcap    []nodeJ   `json:"pcap"`            // plugin records of nodes the store does not know
 	Diffs   []string  `json:"diffs,omitempty"` // the code's own node resource check (informational)
 }
 type msgJ struct {
@@ -147,6 +149,20 @@ func (w *world) snap() snapJ {
 	}
 	for _, e := range s.WAL {
 		out.Wal = append(out.Wal, walJ{Event: e.Event, Node: e.Node})
+	}
+	out.Pnodes = append([]string{}, s.PluginNodes...)
+	sort.Strings(out.Pnodes)
+	out.Pcap = []nodeJ{}
+	for _, pn := range out.Pnodes {
+		known := false
+		for _, n := range s.Nodes {
+			known = known || n.Name == pn
+		}
+		if !known {
+			if c, u, _, err := w.cl.Rmgr.Manager.GetNodeResourceInfo(w.cl.Ctx(), pn, nil, false); err == nil {
+				out.Pcap = append(out.Pcap, nodeJ{Name: pn, Cap: ckit.NodeRes(c), Usage: ckit.NodeRes(u)})
+			}
+		}
 	}
 	sort.Slice(out.Wls, func(i, j int) bool { return out.Wls[i].ID < out.Wls[j].ID })
 	sort.Slice(out.Cts, func(i, j int) bool { return out.Cts[i].ID < out.Cts[j].ID })
@@ -318,6 +334,15 @@ func (w *world) exec(o op, plan ckit.Plan) outcome {
 					if m.Create != nil {
 						out.createMsgs = append(out.createMsgs, m.Create)
 					}
+				}
+			case "addnode":
+				spec := ckit.NodeSpec{Name: o.s("node"), Pod: o.s("pod"), CPU: o.i("cpu"), Memory: int64(o.i("mem"))}
+				if _, err := cl.C.AddNode(ctx, cl.AddNodeOptions(spec)); err != nil {
+					out.ret = "fail"
+				}
+			case "removenode":
+				if err := cl.C.RemoveNode(ctx, o.s("node")); err != nil {
+					out.ret = "fail"
 				}
 			case "setnode":
 				raw := resourcetypes.RawParams{}
@@ -581,6 +606,10 @@ func (w *world) analyse(o op, out *outcome, pre snapJ, ifault *ckit.Addr) (args 
 			}
 		}
 		args = map[string]any{"node": node, "id": o.i("id")}
+	case "addnode":
+		args = map[string]any{"node": o.s("node"), "cap": zeroRes(1)[0]} // cap filled by setCap from the twin
+	case "removenode":
+		args = map[string]any{"node": o.s("node")}
 	case "setnode":
 		args = map[string]any{"node": o.s("node"), "newCap": nil} // newCap filled by setCap from the fault-free twin
 	}
@@ -590,6 +619,14 @@ func (w *world) analyse(o op, out *outcome, pre snapJ, ifault *ckit.Addr) (args 
 // setCap fills the set-node model argument: the capacity the fault-free twin run ended with
 // (a deterministic function of the pre-state and the request).
 func setCap(o op, args map[string]any, twinPost snapJ) {
+	if o.s("op") == "addnode" {
+		for _, n := range twinPost.Nodes {
+			if n.Name == o.s("node") {
+				args["cap"] = n.Cap
+			}
+		}
+		return
+	}
 	if o.s("op") != "setnode" || (o.i("mem") == 0 && o.i("cpu") == 0) {
 		return
 	}
@@ -605,8 +642,23 @@ func setCap(o op, args map[string]any, twinPost snapJ) {
 type gen struct {
 	r     *hx.Rng
 	pods  []string
-	nodes []ckit.NodeSpec
+	nodes []ckit.NodeSpec // every node ever described (initial + added by add-node operations)
 	apps  int
+	extra int
+}
+
+// current returns the specs of the nodes that exist in the snapshot
+func (g *gen) current(pre snapJ) []ckit.NodeSpec {
+	out := []ckit.NodeSpec{}
+	for _, n := range pre.Nodes {
+		for _, sp := range g.nodes {
+			if sp.Name == n.Name {
+				out = append(out, sp)
+				break
+			}
+		}
+	}
+	return out
 }
 
 const mib = 1 << 20
@@ -661,9 +713,17 @@ func (g *gen) request(o op) {
 
 func (g *gen) nextOp(pre snapJ, only string) op {
 	r := g.r
+	cur := g.current(pre)
 	for tries := 0; tries < 20; tries++ {
-		kind := hx.Pick(r, "create", "create", "create", "remove", "remove", "dissociate", "realloc", "realloc", "replace", "setnode")
-		if only != "" && r.Chance(60) {
+		kind := hx.Pick(r, "create", "create", "create", "remove", "remove", "dissociate", "realloc", "realloc", "replace", "setnode", "addnode", "removenode")
+		if len(cur) == 0 {
+			kind = "addnode"
+		}
+		if only == "nodeops" {
+			if r.Chance(30) {
+				kind = hx.Pick(r, "addnode", "removenode", "removenode", "setnode")
+			}
+		} else if only != "" && r.Chance(60) {
 			kind = only
 		}
 		if len(pre.Wls) == 0 && r.Chance(80) {
@@ -682,7 +742,7 @@ func (g *gen) nextOp(pre snapJ, only string) op {
 			}
 			if r.Chance(15) {
 				inc := []string{}
-				for _, n := range g.nodes {
+				for _, n := range cur {
 					if n.Pod == pod && r.Chance(60) {
 						inc = append(inc, n.Name)
 					}
@@ -745,8 +805,36 @@ func (g *gen) nextOp(pre snapJ, only string) op {
 			o["id"] = pre.Wls[r.Intn(len(pre.Wls))].ID
 			o["app"] = "app0"
 			return o
+		case "addnode":
+			if len(cur) >= 5 && r.Chance(70) {
+				continue
+			}
+			spec := ckit.NodeSpec{Pod: g.pods[r.Intn(len(g.pods))], CPU: hx.Pick(r, 2, 4), Memory: int64(hx.Pick(r, 512, 1024, 2048)) * mib}
+			if len(cur) > 0 && r.Chance(15) {
+				spec.Name = cur[r.Intn(len(cur))].Name // already exists: the plugin refuses
+			} else {
+				g.extra++
+				spec.Name = fmt.Sprintf("x%d", g.extra)
+				g.nodes = append(g.nodes, spec)
+			}
+			o["node"], o["pod"], o["cpu"], o["mem"] = spec.Name, spec.Pod, spec.CPU, int(spec.Memory)
+			return o
+		case "removenode":
+			o["node"] = cur[r.Intn(len(cur))].Name
+			if r.Chance(50) { // prefer a node without workloads (a node with workloads is refused)
+				for _, n := range cur {
+					busy := false
+					for _, x := range pre.Wls {
+						busy = busy || x.Node == n.Name
+					}
+					if !busy {
+						o["node"] = n.Name
+					}
+				}
+			}
+			return o
 		case "setnode":
-			o["node"] = g.nodes[r.Intn(len(g.nodes))].Name
+			o["node"] = cur[r.Intn(len(cur))].Name
 			switch r.Intn(4) {
 			case 0:
 				o["mem"] = r.Range(1, 8) * 128 * mib
@@ -763,7 +851,7 @@ func (g *gen) nextOp(pre snapJ, only string) op {
 			return o
 		}
 	}
-	return op{"op": "setnode", "node": g.nodes[0].Name, "label": "z"}
+	return op{"op": "setnode", "node": cur[0].Name, "label": "z"}
 }
 
 // ---------------------------------------------------------------- driver
@@ -773,7 +861,7 @@ func TestGen(t *testing.T) {
 	r := hx.NewRng(seed)
 	budget := hx.EnvInt("VERIF_CASES", 200) // number of emitted cases (runs of an operation)
 	thorough := hx.Thorough()
-	only := map[string]string{"C12": "create"}[os.Getenv("VERIF_PROPERTY")]
+	only := map[string]string{"C12": "create", "C11": "nodeops"}[os.Getenv("VERIF_PROPERTY")]
 	out := hx.OpenOut()
 	defer out.Close()
 	if rp := os.Getenv("VERIF_REPLAY"); rp != "" {
@@ -889,6 +977,15 @@ func replay(t *testing.T, path string, out *hx.Out) {
 				var spec ckit.NodeSpec
 				_ = json.Unmarshal(b, &spec)
 				cl.AddNode(spec)
+			}
+		}
+		for _, n := range k.Pre.Nodes { // nodes added by earlier add-node operations of the history
+			if podOf(k.Setup, n.Name) == "" {
+				pod := "p0"
+				if p, ok := k.Req["pod"].(string); ok && p != "" {
+					pod = p
+				}
+				cl.AddNode(ckit.NodeSpec{Name: n.Name, Pod: pod, CPU: len(n.Cap.Cores), Memory: n.Cap.Mem})
 			}
 		}
 		// re-create the recorded workloads one by one (memory / cpu request = recorded resources)
